@@ -41,7 +41,10 @@ def _pwl_shapes(p, B):
            + int(kw['missing_input_value'] is not None) - int(kw['missing_output_value'] is not None))
   cols = units if p.get('per_unit_input') else 1
   pb = 1 if p.get('shared_params') else B
-  if p.get('two_d'):
+  if p.get('two_d_inputs'):
+    # documented: 2-D keypoint_input_parameters (shared by all units) next to 3-D output parameters
+    ishape, oshape = [pb, nk - 2], [pb, units if not p.get('bcast_units') else 1, osize]
+  elif p.get('two_d'):
     ishape, oshape = [pb, nk - 2], [pb, osize]
   else:
     ishape, oshape = [pb, units if not p.get('bcast_units') else 1, nk - 2], [pb, units if not p.get('bcast_units') else 1, osize]
@@ -417,6 +420,9 @@ def cases(tier, seed):
   add('case_pwl_fn', nk=3, units=1, mono='none', cyclic=True, missing_input=-1.0)
   add('case_pwl_fn', nk=4, units=2, mono='none', cyclic=True, missing_input=0.0, per_unit_input=True, omin=-1.0, omax=2.0)
   add('case_pwl_fn', nk=3, units=2, mono='none', cyclic=True, missing_input=3.0, missing_output=0.5)
+  for nk_ in (3, 4):
+    add('case_pwl_fn', nk=nk_, units=2, mono='increasing', two_d_inputs=True)
+    add('case_pwl_fn', nk=nk_, units=3, mono='none', two_d_inputs=True, shared_params=True, per_unit_input=True)
   add('case_pwl_fn', nk=3, units=1, mono='none')
   # floating point: a keypoint share that underflowed to exactly 0 in softmax (zero-length piece)
   for nk_, zeros in ((3, (0, 1)), (4, (0, 1, 2))):
